@@ -44,12 +44,31 @@ def obs(line):
     return " | ".join(out)
 
 
+def _same_txid_twice(case):
+    seen = set()
+    for op in case.split(" ; "):
+        w = op.split()
+        if w and w[0] == "tx":
+            key = tuple(x.replace("!", "") for x in w[2:])
+            if key in seen:
+                return True
+            seen.add(key)
+    return False
+
+
 class MempoolTie(Tie):
     """The model replay is given the implementation's line (policy verdicts, evictions, chain movements are the
     implementation's own answers: see ocaml/mempool_driver.ml); the comparison is on the observable part."""
     def __init__(self, *a, **k):
         super().__init__(*a, **k)
         self._full = {}
+        # A script that defines two transactions with the same fields up to the bad-signature marker "!" asks for
+        # two different transactions with one txid; the C++ driver's own parser refuses that script (BADSCRIPT)
+        # while the model driver has no txids to notice it.  Such scripts are malformed cases, not observations
+        # (thorough-tier false alarm corrected, DESIGN 9.4): they are not generated.
+        g = self.gen
+        if g is not None:
+            self.gen = lambda rng, tier, _g=g: [c for c in _g(rng, tier) if not _same_txid_twice(c)]
 
     def run_impl(self, cpp, cases):
         full = Tie.run_impl(self, cpp, cases)
@@ -881,9 +900,57 @@ def sc_testaccept(rng):
     return "testaccept", b.line()
 
 
+def sc_truc(rng):
+    """TRUC (version 3) shapes, each candidate tested and then submitted: a second child of a parent that already has an
+    unconfirmed child (sibling eviction: accepted when it pays enough more, refused otherwise), a child replacing its sibling
+    through a shared input, a too-large child, a non-TRUC child of a TRUC parent, ordinary replacement candidates and a
+    child of a parent that was refused for its fee (package-less CPFP)"""
+    b = B(rng)
+    b.mine()
+    fanout(b, 6)
+    outs = pick_conf(b, 6)
+
+    def both(name, expect=True):
+        b.test(name)
+        b.atmp(name, expect=expect)
+    par = b.tx([outs[0]], 3, fee=5000, ver=3)
+    b.atmp(par)
+    c1 = b.tx([(par, 0)], 1, fee=rng.choice([1000, 2000, 4000]), ver=3)
+    b.atmp(c1)
+    shapes = ["sibling_hi", "sibling_hi", "sibling_lo", "sibling_conflict", "big_child", "non_truc_child", "rbf", "cpfp"]
+    rng.shuffle(shapes)
+    k = 1
+    for sh in shapes[:rng.choice([2, 3, 4])]:
+        if sh == "sibling_hi":
+            both(b.tx([(par, 1)], 1, fee=rng.choice([20000, 50000, 9000]), ver=3))
+        elif sh == "sibling_lo":
+            both(b.tx([(par, 2)], 1, fee=rng.choice([100, 1000, 2000, 4050]), ver=3), expect=False)
+        elif sh == "sibling_conflict":
+            both(b.tx([(par, 0)], 1, fee=rng.choice([300, 30000]), ver=3), expect=False)
+        elif sh == "big_child" and k + 1 < len(outs):
+            p2 = b.tx([outs[k]], 2, fee=5000, ver=3); k += 1
+            b.atmp(p2)
+            both(b.tx([(p2, 0)], 1, fee=60000, ver=3, pad=rng.choice([3500, 4200, 6000])), expect=False)
+            both(b.tx([(p2, 1)], 1, fee=6000, ver=3, pad=rng.choice([0, 3000])))
+        elif sh == "non_truc_child":
+            both(b.tx([(par, 2)], 1, fee=30000, ver=2), expect=False)
+        elif sh == "rbf" and k < len(outs):
+            v = b.tx([outs[k]], 1, fee=3000, seqs=[SEQ_RBF]); 
+            b.atmp(v)
+            both(b.tx([outs[k]], 1, fee=rng.choice([3000, 3100, 3500, 40000])), expect=False)
+            k += 1
+        elif sh == "cpfp" and k < len(outs):
+            lo = b.tx([outs[k]], 1, fee=rng.choice([0, 10])); k += 1
+            both(lo, expect=False)
+            both(b.tx([(lo, 0)], 1, fee=50000), expect=False)
+    return "truc", b.line()
+
+
 def gen_c28(rng, tier):
     n = 9 if tier == "quick" else 120
     cases = []
+    for _ in range(n + 3):
+        cases.append(sc_truc(rng)[1])
     for _ in range(2 * n):
         cases.append(sc_testaccept(rng)[1])
     for f in (sc_conflict, sc_maturity, sc_locks, sc_chain, sc_resurrect, sc_random):
